@@ -113,6 +113,26 @@ def run(ctx):
             ctx.violation(R, f_sef.short, "vlevel=%d" % vl,
                           "validations %r, stored %r" % (
                               vals, ln.attrs["_data"].get("xx")))
+        # a tag with no datatype on record (its accessor outlives a deleted
+        # tag) is validated as the default datatype of the value, not as None
+        ctx.instance(R)
+
+        class VH0(VH):
+            def before_inline(self, ev, func, args, kwargs):
+                if func.name == "_get_default_gfa_tag_datatype":
+                    return "i"
+                return super().before_inline(ev, func, args, kwargs)
+        ln = Abs(seg, label="line", vlevel=vl, _gfa=None, _data={},
+                 _datatype={})
+        out = eval_function(repo, f_sef, [ln, "xx", 7], hooks=VH0(repo))
+        vals = [e for e in out[2] if e[0] == "validate"]
+        ok = out[0] == "return" and ln.attrs["_data"].get("xx") == 7 and \
+            (vals == [("validate", 7, "i")] if vl >= 3 else vals == [])
+        ctx.oblige(ok)
+        if not ok:
+            ctx.violation(R, f_sef.short, "vlevel=%d,no datatype on record"
+                          % vl, "validations %r, stored %r, outcome %r" % (
+                              vals, ln.attrs["_data"].get("xx"), out[0:2]))
         for stored, dt in ((5, "i"), ("text", "Z"), ("12", "i")):
             ctx.instance(R)
             ln = Abs(seg, label="line", vlevel=vl, _data={"xx": stored},
@@ -163,6 +183,68 @@ def run(ctx):
                               "stored afterwards %r); it must validate the "
                               "stored value itself" % (
                                   vals, parses, ln.attrs["_data"].get("xx")))
+    ctx.exhaustive[R] = True
+
+    # ------------------------------------------------------------------
+    R = "C18.validator_dispatch"
+    ctx.rule(R, "Field._validate_gfa_field hands every value to the "
+             "validator of the datatype it is validated as: text to "
+             "validate_encoded, any other object to validate_decoded (a "
+             "FieldArray validates itself against the datatype); no class of "
+             "value is accepted without asking the datatype, and a datatype "
+             "without module is a TypeError", floor=20)
+    V = repo.cls("field.validator.Validator")
+    f_val = ctx.anchor("Validator._validate_gfa_field",
+                       V.find_method("_validate_gfa_field"))
+    modabs = Abs(None, label="module-of-datatype")
+
+    class DH(LineHooks):
+        def class_attr(self, ev, cls, attr):
+            if attr == "FIELD_MODULE":
+                return {"dt": modabs}
+            return super().class_attr(ev, cls, attr)
+
+        def method(self, ev, base, name, args, kwargs, node):
+            if base is modabs and name in ("validate_decoded",
+                                           "validate_encoded"):
+                ev.events.append((name, args[0]))
+                return None
+            if isinstance(base, Abs) and base.label == "value:FieldArray" \
+                    and name == "_validate_gfa_field":
+                ev.events.append(("array-validates-itself",
+                                  args[0] if args else None))
+                return None
+            return super().method(ev, base, name, args, kwargs, node)
+    from .c19 import value_of_class, FakeBuiltin
+    from .. import spec
+    vclasses = sorted(spec.MUTABLE_VALUE_CLASSES | spec.IMMUTABLE_VALUE_CLASSES
+                      | {"Line"})
+    for vc in vclasses:
+        for dt in ("dt", "unknown"):
+            ctx.instance(R)
+            v = value_of_class(repo, vc, "value:%s" % vc)
+            if isinstance(v, Abs) and v.attrs.get("__builtin__"):
+                v.cls = FakeBuiltin(v.attrs["__builtin__"])
+            out = eval_function(repo, f_val, [v, dt, "xx"], hooks=DH(repo))
+            evs = [e for e in out[2] if e[0] != "store"]
+            if vc == "FieldArray":
+                ok = out[0] == "return" and \
+                    evs == [("array-validates-itself", dt)]
+            elif dt == "unknown":
+                ok = out[0] == "raise" and str(out[1]).endswith("TypeError") \
+                    and not evs
+            else:
+                want = "validate_encoded" if vc == "str" else \
+                    "validate_decoded"
+                ok = out[0] == "return" and len(evs) == 1 and \
+                    evs[0][0] == want and (evs[0][1] is v or evs[0][1] == v)
+            ctx.oblige(ok)
+            if not ok:
+                ctx.violation(R, f_val.short,
+                              "value=%s,datatype=%s" % (
+                                  vc, "known" if dt == "dt" else "unknown"),
+                              "outcome %r, validators asked %r" % (
+                                  out[0:2], [e[0] for e in evs]))
     ctx.exhaustive[R] = True
 
     # ------------------------------------------------------------------
